@@ -15,7 +15,7 @@ P("C40",
   level_note="partial: the engine is modelled with one handler at a time (round-internal parallelism is C04); lock sets are assigned to "
              "accesses by reading the code (nowLock, queue check-out, port lock, progress-bar mutex, TickScheduler lock, pauseLock); the race "
              "detector samples real interleavings.",
-  assumptions=["Go memory model; the race detector reports exactly the unsynchronised conflicting accesses it observes",
+  assumptions=["the tie requires every endpoint the race detector implicates to be one the model says may race (sound direction); that a possible race manifests in a given run depends on the Go scheduler and is not required (it made the check flaky)", "Go memory model; the race detector reports exactly the unsynchronised conflicting accesses it observes",
                "goseth's serializer only reads the component's fields"],
   trusted=["modelled, not verified: monitoring2/monitor.go (pauseEngine, continueEngine, apiEngineState, now, tick, listComponentDetails, "
            "listFieldValue, hangDetectorBuffers, listProgressBars, pauseForInspection), timing/serialengine.go, timing/parallelengine.go "
